@@ -1027,6 +1027,20 @@ class SymNumpy:
             return _map(lambda v: v.im if hasattr(v, "im") else 0, _np.asarray(x, dtype=object))
         return _np.imag(x)
 
+    def cumsum(self, x, axis=None, dtype=None, **k):
+        if not has_sym(x):
+            return _np.cumsum(x, axis=axis, dtype=dtype, **k)
+        x = _np.asarray(x, dtype=object)
+        if x.ndim != 1 and axis is not None:
+            raise SymUnsupported("cumsum of a symbolic array along an axis")
+        x = x.ravel()
+        out = _np.empty(len(x), dtype=object)
+        acc = 0
+        for i in range(len(x)):
+            acc = acc + x[i]
+            out[i] = acc
+        return out.view(OArr)          # exact running totals: the requested machine type is outside the model
+
     def mean(self, x, axis=None, dtype=None, **k):
         if not has_sym(x):
             return _np.mean(defloat(x), axis=axis, dtype=dtype, **k)
